@@ -28,6 +28,16 @@ def spec_field(spec, key):
     return m.group(1) if m else None
 
 
+# which property's statement governs an operation family (error kinds named there must match exactly)
+FAMILY_OWNER = {"r2f": "C04", "f2r": "C04", "slice": "C04", "secbytes": "C04", "read": "C05", "r2v": "C05", "v2r": "C05",
+                "to_view": "C06", "to_file": "C06", "from_bytes": "C07", "hdr": "C07", "hdrw": "C07", "byrva": "C07", "byname": "C07",
+                "exports": "C08", "export": "C08", "imports": "C09", "iat": "C09", "scan": "C10", "scan_code": "C10", "finds": "C10",
+                "finds_code": "C10", "pat_exec": "C10", "pat_sem": "C11", "pat_ref": "C11", "pat_parse": "C17", "pat_macro": "C17",
+                "ver": "C13", "verat": "C13", "debug": "C15", "tls": "C15", "loadcfg": "C15", "exc": "C15", "security": "C15",
+                "pogo_hist": "C15", "strings": "C20", "strings_hist": "C20"}
+FAMILY_PREFIX = [("derva", "C05"), ("deref", "C05"), ("rich", "C16"), ("relocs", "C14"), ("res", "C12"), ("json", "C19")]
+
+
 class Prop:
     """Base: exact comparison of implementation and model answers for the listed families."""
     pid = None
@@ -77,11 +87,28 @@ class Prop:
     # violation); a named kind, a value, and success-vs-failure are always compared exactly.
     named_errors = None
 
+    def named_for(self, op):
+        """the error kinds that must match exactly for this operation: the set of the property that OWNS the
+        operation family (a property that pulls in other modules' streams — C18, C19 — judges their error kinds
+        by the owner's statement, not more strictly)"""
+        fam = op.split(" ", 1)[0]
+        owner = FAMILY_OWNER.get(fam)
+        if owner is None:
+            for pre, pid in FAMILY_PREFIX:
+                if fam.startswith(pre):
+                    owner = pid
+                    break
+        p = REGISTRY.get(owner) if owner else None
+        if p is not None and p is not self and getattr(self, "pulls_others", False):
+            return p.named_errors
+        return self.named_errors
+
     def agree(self, op, impl, model):
         pi, pm = self.project(op, impl), self.project(op, model)
         if pi == pm:
             return True
-        if self.named_errors is not None:
+        named = self.named_for(op)
+        if named is not None:
             for pre in ("err ", "noimg "):
                 # (`noimg <Kind>`: the constructor rejected the buffer — which of several applicable checks
                 # fires first is as unspecified as any other unnamed error kind)
@@ -89,7 +116,7 @@ class Prop:
                     ki = pi.split(" ")[1] if " " in pi else ""
                     km = pm.split(" ")[1] if " " in pm else ""
                     # a kind the statement names must match exactly, whichever side reports it
-                    if km not in self.named_errors and ki not in self.named_errors:
+                    if km not in named and ki not in named:
                         return True
         return False
 
@@ -134,6 +161,7 @@ class C20(Prop):
 
 
 class C14(Prop):
+    named_errors = set()     # the statement names no error kind: errors agree by class
     pid = "C14"
     title = "base relocations"
     thm_modules = ["PeliteModel.Thm.C14", "PeliteModel.Thm.ImageLayout"]
